@@ -2,7 +2,7 @@
    (goal_attr, goal_package, goal_inh of Proofs/UmlSemGoals.v). *)
 From Coq Require Import String Ascii List Bool Arith Lia.
 From KV Require Import Lib.Str Lib.ODict Model.Vpp Model.VppWriter Model.Uml Model.UmlBlob Model.UmlWriter Model.UmlSem
-                       Proofs.UmlBlobDefs Proofs.UmlBlobStruct Proofs.UmlSemDefs Proofs.UmlSemDict Proofs.UmlSemGoals.
+                       Proofs.UmlBlobDefs Proofs.UmlBlobStruct Proofs.UmlBlobText Proofs.UmlSemDefs Proofs.UmlSemDict Proofs.UmlSemDoc Proofs.UmlSemGoals.
 Import ListNotations.  Open Scope string_scope.
 
 (* ---------------------------------------------------------------- booleans, strings *)
@@ -295,18 +295,37 @@ Proof.
   rewrite a_split_join; [reflexivity|exact Hn|apply a_idents_nocolon; apply (a_path_ident S); exact H].
 Qed.
 
-Lemma a_type_clean : forall t, type_ok t = true -> clean_modifiers t = t.
-Proof. intros t H. unfold type_ok in H. a_split. apply String.eqb_eq. assumption. Qed.
+(* ---------------------------------------------------------------- values the reader keeps *)
 
-(* ---------------------------------------------------------------- the body dictionary of an element without owned elements *)
+(* a written value survives the reader: something besides commas and blanks is left *)
+Definition a_kept (s : string) : bool := negb (String.eqb (py_strip (remove_char "," s)) "").
 
-Definition a_flat (it : witem) : bool :=
-  match it with IField _ _ v => negb (String.eqb (unq v) "") | IRefs _ _ _ _ _ _ => true | _ => false end.
+Lemma a_remove_none : forall c s, no_char c s = true -> remove_char c s = s.
+Proof.
+  intros c s. induction s as [|x s IH]; intro H; [reflexivity|].
+  cbn [no_char] in H. apply andb_true_iff in H. destruct H as [H1 H2]. apply negb_true_iff in H1.
+  cbn [remove_char]. rewrite H1, (IH H2). reflexivity.
+Qed.
+
+Lemma a_txt_kept : forall s, txt s = true -> negb (String.eqb s "") = true -> a_kept s = true.
+Proof.
+  intros s H Hn. unfold a_kept. unfold txt in H. a_split.
+  rewrite a_remove_none by assumption.
+  match goal with H : String.eqb (py_strip s) s = true |- _ => apply String.eqb_eq in H; rewrite H end. exact Hn.
+Qed.
+
+Lemma a_vtxt_kept : forall s, vtxt s = true -> String.eqb s "" = false -> a_kept s = true.
+Proof.
+  intros s H Hn. unfold vtxt in H. a_split.
+  match goal with H : (String.eqb s "" || _)%bool = true |- _ => rewrite Hn in H; cbn [orb] in H; exact H end.
+Qed.
+
+(* ---------------------------------------------------------------- the body dictionary of an element *)
 
 Lemma a_layout_parts : forall f l, layout_ok f l = true ->
   nodup_tags l [] = true /\ nodups (entry_keys (items_of "" f l)) = true
   /\ forallb (fun k => negb (prefixb "child_" k)) (entry_keys (items_of "" f l)) = true
-  /\ forallb (fun s => match s with SNoise k v => noise_key k && noise_val v | STag _ => true end) l = true
+  /\ forallb (fun s => match s with SNoise k v => noise_key k && noise_val v | _ => true end) l = true
   /\ (forall t it, f t = Some it -> has_tag t l = true).
 Proof.
   intros f l H. unfold layout_ok in H.
@@ -317,43 +336,12 @@ Proof.
   destruct t; match goal with H : match f ?T with Some _ => _ | None => _ end = true |- has_tag ?T l = true => rewrite Hf in H; exact H end.
 Qed.
 
-Lemma a_noise_val_ne : forall v, noise_val v = true -> negb (String.eqb (unq v) "") = true.
+(* the properties, then the owned elements (of inert properties too) numbered child_0, child_1 ... *)
+Lemma a_body : forall ws f l, layout_ok f l = true ->
+  body_pv (items_of ws f l) = PDict (entries (items_of ws f l) ++ numbered (map node_pv (children_of (items_of ws f l))) 0)%list.
 Proof.
-  intros v H. unfold noise_val in H. apply orb_true_iff in H. destruct H as [H|H].
-  - a_split. rewrite a_unq_plain; [assumption|]. apply negb_true_iff. assumption.
-  - remember (substring 1 (String.length v - 2) v) as u eqn:Eu. clear Eu. a_split.
-    match goal with H : String.eqb v (q u) = true |- _ => apply String.eqb_eq in H; subst v end.
-    rewrite a_unq_q. assumption.
-Qed.
-
-Lemma a_items_flat : forall ws f l,
-  (forall t it, f t = Some it -> a_flat it = true) ->
-  forallb (fun s => match s with SNoise k v => noise_key k && noise_val v | STag _ => true end) l = true ->
-  forallb a_flat (items_of ws f l) = true.
-Proof.
-  intros ws f l Hf. induction l as [|s r IH]; intro H; [reflexivity|].
-  cbn [forallb] in H. a_split. rewrite items_of_cons, forallb_app, IH by assumption. rewrite andb_true_r.
-  destruct s as [k v|t].
-  - cbn [forallb a_flat]. a_split. rewrite a_noise_val_ne by assumption. reflexivity.
-  - destruct (f t) as [it|] eqn:E; [|reflexivity]. cbn [forallb]. rewrite (Hf t it E). reflexivity.
-Qed.
-
-Lemma a_flat_simple : forall its, forallb a_flat its = true -> forallb item_simple its = true /\ children_of its = [].
-Proof.
-  induction its as [|it r IH]; intro H; [split; reflexivity|].
-  cbn [forallb] in H. a_split. destruct (IH ltac:(assumption)) as [I1 I2].
-  unfold children_of in *. cbn [forallb flat_map]. rewrite I1, I2.
-  destruct it; try discriminate; split; try reflexivity.
-  cbn [a_flat item_simple] in *. rewrite andb_true_r. assumption.
-Qed.
-
-Lemma a_body : forall ws f l, layout_ok f l = true -> (forall t it, f t = Some it -> a_flat it = true) ->
-  body_pv (items_of ws f l) = PDict (entries (items_of ws f l)).
-Proof.
-  intros ws f l H Hf. destruct (a_layout_parts f l H) as [_ [H2 [H3 [H4 _]]]].
-  destruct (a_flat_simple _ (a_items_flat ws f l Hf H4)) as [S1 S2].
-  rewrite body_explicit; [|exact S1|rewrite entry_keys_ws; exact H2|rewrite entry_keys_ws; exact H3].
-  rewrite S2. cbn [map numbered]. rewrite app_nil_r. reflexivity.
+  intros ws f l H. destruct (a_layout_parts f l H) as [_ [H2 [H3 _]]].
+  apply body_explicit; rewrite entry_keys_ws; assumption.
 Qed.
 
 (* a noise key is none of the keys the adaptor asks for *)
@@ -363,18 +351,33 @@ Proof.
   match goal with H : negb (existsb (String.eqb k) reserved_keys) = true |- _ => rewrite Hk in H; discriminate H end.
 Qed.
 
-Lemma a_lookup : forall ws f l k t0, layout_ok f l = true -> existsb (String.eqb k) reserved_keys = true ->
+(* a key the reader asks for in an element of kind K is written by ONE tag only: neither noise nor inert properties have it *)
+Lemma a_lookup : forall K ws f l k t0, layout_ok f l = true -> inerts_ok K l = true ->
+  existsb (String.eqb k) reserved_keys = true -> existsb (String.eqb k) (kind_keys K) = true ->
   (forall t, t <> t0 -> lookup String.eqb k (tag_entries f t) = None) ->
   lookup String.eqb k (entries (items_of ws f l)) = lookup String.eqb k (tag_entries f t0).
 Proof.
-  intros ws f l k t0 H Hk Ho. destruct (a_layout_parts f l H) as [_ [_ [_ [H4 H5]]]].
+  intros K ws f l k t0 H Hi Hk HK Ho. destruct (a_layout_parts f l H) as [_ [_ [_ [H4 H5]]]].
   rewrite lookup_drop_noise.
   - rewrite (lookup_single_tag f (tags_of l) k t0 Ho), <- has_tag_tags_of.
     unfold tag_entries at 2. destruct (f t0) as [it|] eqn:E.
     + rewrite (H5 t0 it E). unfold tag_entries. rewrite E. reflexivity.
     + destruct (has_tag t0 l); [unfold tag_entries; rewrite E|]; reflexivity.
-  - intros kn vn Hin. rewrite forallb_forall in H4. specialize (H4 _ Hin). cbn beta iota in H4. a_split.
-    apply a_noise_not_reserved; assumption.
+  - intros s Hin. destruct s as [kn vn|t|it]; [|trivial|].
+    + rewrite forallb_forall in H4. specialize (H4 _ Hin). cbn beta iota in H4. a_split.
+      apply a_noise_not_reserved; assumption.
+    + intro Hk2. destruct (inert_key_free K l it k Hi Hin Hk2) as [E _]. rewrite E in HK. discriminate HK.
+Qed.
+
+(* the same in the whole body dictionary: the numbered owned elements do not have the key either *)
+Lemma a_lookup_body : forall K ws f l k t0 vals, layout_ok f l = true -> inerts_ok K l = true ->
+  existsb (String.eqb k) reserved_keys = true -> existsb (String.eqb k) (kind_keys K) = true -> prefixb "child_" k = false ->
+  (forall t, t <> t0 -> lookup String.eqb k (tag_entries f t) = None) ->
+  lookup String.eqb k (entries (items_of ws f l) ++ numbered vals 0)%list = lookup String.eqb k (tag_entries f t0).
+Proof.
+  intros K ws f l k t0 vals H Hi Hk HK Hp Ho.
+  rewrite lookup_app, lookup_numbered_none by exact Hp. rewrite (a_lookup K ws f l k t0 H Hi Hk HK Ho).
+  destruct (lookup String.eqb k (tag_entries f t0)); reflexivity.
 Qed.
 
 (* what the fields write *)
@@ -382,33 +385,43 @@ Definition a_text (k v : string) : list (string * UmlBlob.pv) := if String.eqb v
 Definition a_flag (k : string) (b : bool) : list (string * UmlBlob.pv) := if b then [(k, PStr "T")] else [].
 Definition a_ref (k : string) (ids : list string) : list (string * UmlBlob.pv) :=
   match ids with [] => [] | _ => [(k ++ "_0", PStr (path_text ids))] end.
+Definition a_doc (ws : string) (d : sdoc) : list (string * UmlBlob.pv) :=
+  match doc_field ws d with Some _ => [("documentation_plain", PStr (doc_value d))] | None => [] end.
 
-Lemma a_text_entries : forall ws k v, match text_field ws k v with Some it => item_entries it | None => [] end = a_text k v.
-Proof. intros. unfold text_field, a_text. destruct (String.eqb v ""); [reflexivity|]. cbn [item_entries]. rewrite a_unq_q. reflexivity. Qed.
+Lemma a_text_entries : forall ws k v, vtxt v = true ->
+  match text_field ws k v with Some it => item_entries it | None => [] end = a_text k v.
+Proof.
+  intros ws k v Hv. unfold text_field, a_text. destruct (String.eqb v "") eqn:E; [reflexivity|].
+  cbn [item_entries]. rewrite a_unq_q.
+  pose proof (a_vtxt_kept v Hv E) as Hk. unfold a_kept in Hk. apply negb_true_iff in Hk. rewrite Hk. reflexivity.
+Qed.
 Lemma a_flag_entries : forall ws k b, match flag_field ws k b with Some it => item_entries it | None => [] end = a_flag k b.
 Proof. intros. unfold flag_field, a_flag. destruct b; reflexivity. Qed.
 Lemma a_ref_entries : forall ws k ids, match ref_field ws k ids with Some it => item_entries it | None => [] end = a_ref k ids.
 Proof. intros. unfold ref_field, a_ref. destruct ids; reflexivity. Qed.
-
-Lemma a_text_flat : forall ws k v it, text_field ws k v = Some it -> a_flat it = true.
+Lemma a_doc_entries : forall nl n d, nl_ok nl = true -> doc_ok (tabsn nl n) d = true ->
+  match doc_field (tabsn nl n) d with Some it => item_entries it | None => [] end = a_doc (tabsn nl n) d.
 Proof.
-  intros ws k v it H. unfold text_field in H. destruct (String.eqb v "") eqn:E; [discriminate|].
-  injection H as H. subst it. cbn [a_flat]. rewrite a_unq_q, E. reflexivity.
+  intros nl n d Hnl Hd. unfold a_doc. destruct (doc_field (tabsn nl n) d) as [it|] eqn:E; [|reflexivity].
+  destruct (doc_entries nl n d it Hnl Hd E) as [E1 _]. exact E1.
 Qed.
-Lemma a_flag_flat : forall ws k b it, flag_field ws k b = Some it -> a_flat it = true.
-Proof. intros ws k b it H. unfold flag_field in H. destruct b; [|discriminate]. injection H as H. subst it. reflexivity. Qed.
-Lemma a_ref_flat : forall ws k ids it, ref_field ws k ids = Some it -> a_flat it = true.
-Proof. intros ws k ids it H. unfold ref_field in H. destruct ids; [discriminate|]. injection H as H. subst it. reflexivity. Qed.
+Lemma a_code_entries : forall ws k c, code_ok (Some c) = true -> item_entries (IField ws k c) = [(k, PStr c)].
+Proof.
+  intros ws k c H. cbn [code_ok] in H. a_split. cbn [item_entries].
+  rewrite a_unq_plain by (apply negb_true_iff; assumption).
+  pose proof (a_txt_kept c ltac:(assumption) ltac:(assumption)) as Hk. unfold a_kept in Hk. apply negb_true_iff in Hk.
+  rewrite Hk. reflexivity.
+Qed.
 
 (* ---------------------------------------------------------------- attributes *)
 
 Definition a_attr_entries (a : sattr) (t : tag) : list (string * UmlBlob.pv) :=
   match t with
-  | TVis => match sa_vis a with Some c => [("visibility", PStr (unq c))] | None => [] end
+  | TVis => match sa_vis a with Some c => [("visibility", PStr c)] | None => [] end
   | TType => a_ref "type" (sa_type a)
   | TTypeMod => a_text "typeModifier" (sa_mod a)
   | TMult => a_text "multiplicity" (sa_mult a)
-  | TDoc => a_text "documentation_plain" (sa_doc a)
+  | TDoc => a_doc (tabsn (sa_nl a) 3) (sa_doc a)
   | TInit => a_text "initialValue_string" (sa_init a)
   | TSetter => a_flag "hasSetter" (sa_setter a)
   | TGetter => a_flag "hasGetter" (sa_getter a)
@@ -417,37 +430,29 @@ Definition a_attr_entries (a : sattr) (t : tag) : list (string * UmlBlob.pv) :=
   | _ => []
   end.
 
-Lemma a_attr_tag : forall a t, tag_entries (attr_item a) t = a_attr_entries a t.
+Lemma a_attr_tag : forall S a t, attr_ok S a = true -> tag_entries (attr_item a) t = a_attr_entries a t.
 Proof.
-  intros a t. unfold tag_entries.
-  destruct t; cbn [attr_item a_attr_entries]; rewrite ?a_text_entries, ?a_flag_entries, ?a_ref_entries; try reflexivity.
-  - destruct (sa_vis a); reflexivity.
+  intros S a t H. unfold attr_ok in H. a_split. unfold tag_entries.
+  destruct t; cbn [attr_item a_attr_entries]; rewrite ?a_text_entries by assumption;
+    rewrite ?a_flag_entries, ?a_ref_entries; rewrite ?a_doc_entries by assumption; try reflexivity.
+  - destruct (sa_vis a) as [c|]; [|reflexivity]. apply a_code_entries. assumption.
   - destruct (sa_static a); reflexivity.
 Qed.
 
-Lemma a_attr_flat : forall S a, attr_ok S a = true -> forall t it, attr_item a t = Some it -> a_flat it = true.
-Proof.
-  intros S a H t it Hi. unfold attr_ok in H. a_split.
-  destruct t; cbn [attr_item] in Hi; try discriminate Hi;
-    try (eapply a_text_flat; eassumption); try (eapply a_flag_flat; eassumption); try (eapply a_ref_flat; eassumption).
-  - destruct (sa_vis a) as [c|]; [|discriminate]. injection Hi as Hi. subst it.
-    match goal with H : code_ok (Some c) = true |- _ => cbn [code_ok] in H end. a_split.
-    cbn [a_flat]. rewrite a_unq_plain; [assumption | apply negb_true_iff; assumption].
-  - destruct (sa_static a); [|discriminate]. injection Hi as Hi. subst it. reflexivity.
-Qed.
-
-Ltac a_attr_other :=
+Ltac a_attr_other S Hok :=
   let t := fresh "t" in let Ht := fresh "Ht" in
-  intros t Ht; rewrite a_attr_tag; destruct t; try (exfalso; apply Ht; reflexivity);
-  cbn [a_attr_entries]; unfold a_text, a_flag, a_ref; try reflexivity;
+  intros t Ht; rewrite (a_attr_tag S) by exact Hok; destruct t; try (exfalso; apply Ht; reflexivity);
+  cbn [a_attr_entries]; unfold a_text, a_flag, a_ref, a_doc; try reflexivity;
   repeat match goal with |- context [match ?x with _ => _ end] => destruct x end; reflexivity.
 
-Lemma a_attr_lookup : forall S a k t0, attr_ok S a = true -> existsb (String.eqb k) reserved_keys = true ->
+Lemma a_attr_lookup : forall S a k t0 vals, attr_ok S a = true -> existsb (String.eqb k) reserved_keys = true ->
+  existsb (String.eqb k) (kind_keys KAttr) = true -> prefixb "child_" k = false ->
   (forall t, t <> t0 -> lookup String.eqb k (tag_entries (attr_item a) t) = None) ->
-  lookup String.eqb k (entries (items_of (tabs 3) (attr_item a) (sa_layout a))) = lookup String.eqb k (a_attr_entries a t0).
+  lookup String.eqb k (entries (items_of (tabsn (sa_nl a) 3) (attr_item a) (sa_layout a)) ++ numbered vals 0)%list
+  = lookup String.eqb k (a_attr_entries a t0).
 Proof.
-  intros S a k t0 H Hk Ho. rewrite <- a_attr_tag. apply a_lookup; [|exact Hk|exact Ho].
-  unfold attr_ok in H. a_split. assumption.
+  intros S a k t0 vals H Hk HK Hp Ho. rewrite <- (a_attr_tag S) by exact H.
+  unfold attr_ok in H. a_split. apply (a_lookup_body KAttr); assumption.
 Qed.
 
 Lemma a_head_name : forall a b c d, sidx "name" (PDict [("id", a); ("name", PStr b); ("type", c); ("child_0", d)]) = Some b.
@@ -463,6 +468,15 @@ Proof.
   - cbn [lookup]. rewrite String.eqb_refl. reflexivity.
 Qed.
 
+Lemma a_opt_doc : forall E ws d, lookup String.eqb "documentation_plain" E = lookup String.eqb "documentation_plain" (a_doc ws d) ->
+  opt_field "documentation_plain" (PDict E) "" = Some (doc_value d).
+Proof.
+  intros E ws d H. unfold opt_field, sidx, has, idx. rewrite mem_lookup, H. unfold a_doc.
+  destruct (doc_field ws d) as [it|] eqn:Ed.
+  - reflexivity.
+  - rewrite (doc_absent ws d Ed). reflexivity.
+Qed.
+
 Lemma a_has_flag : forall k E b, lookup String.eqb k E = lookup String.eqb k (a_flag k b) -> has k (PDict E) = b.
 Proof.
   intros k E b H. unfold has. rewrite mem_lookup, H. unfold a_flag. destruct b; [|reflexivity].
@@ -473,45 +487,44 @@ Lemma build_attr : goal_attr.
 Proof.
   intros S g a Hg Hok. pose proof Hok as Hok'. unfold attr_ok in Hok'. a_split.
   unfold tree_of_attr. rewrite node_explicit.
-  rewrite (a_body _ _ _ ltac:(eassumption) (a_attr_flat S a Hok)).
-  remember (entries (items_of (tabs 3) (attr_item a) (sa_layout a))) as E eqn:HE.
+  rewrite (a_body _ _ _ ltac:(eassumption)).
+  remember (entries (items_of (tabsn (sa_nl a) 3) (attr_item a) (sa_layout a))
+            ++ numbered (map node_pv (children_of (items_of (tabsn (sa_nl a) 3) (attr_item a) (sa_layout a)))) 0)%list as E eqn:HE.
   assert (Lvis : lookup String.eqb "visibility" E = lookup String.eqb "visibility" (a_attr_entries a TVis))
-    by (subst E; apply (a_attr_lookup S); [exact Hok | reflexivity | a_attr_other]).
+    by (subst E; apply (a_attr_lookup S); [exact Hok | reflexivity | reflexivity | reflexivity | a_attr_other S Hok]).
   assert (Lmod : lookup String.eqb "typeModifier" E = lookup String.eqb "typeModifier" (a_attr_entries a TTypeMod))
-    by (subst E; apply (a_attr_lookup S); [exact Hok | reflexivity | a_attr_other]).
+    by (subst E; apply (a_attr_lookup S); [exact Hok | reflexivity | reflexivity | reflexivity | a_attr_other S Hok]).
   assert (Lty : lookup String.eqb "type_0" E = lookup String.eqb "type_0" (a_attr_entries a TType))
-    by (subst E; apply (a_attr_lookup S); [exact Hok | reflexivity | a_attr_other]).
+    by (subst E; apply (a_attr_lookup S); [exact Hok | reflexivity | reflexivity | reflexivity | a_attr_other S Hok]).
   assert (Ldoc : lookup String.eqb "documentation_plain" E = lookup String.eqb "documentation_plain" (a_attr_entries a TDoc))
-    by (subst E; apply (a_attr_lookup S); [exact Hok | reflexivity | a_attr_other]).
+    by (subst E; apply (a_attr_lookup S); [exact Hok | reflexivity | reflexivity | reflexivity | a_attr_other S Hok]).
   assert (Lsc : lookup String.eqb "scope" E = lookup String.eqb "scope" (a_attr_entries a TScope))
-    by (subst E; apply (a_attr_lookup S); [exact Hok | reflexivity | a_attr_other]).
+    by (subst E; apply (a_attr_lookup S); [exact Hok | reflexivity | reflexivity | reflexivity | a_attr_other S Hok]).
   assert (Lini : lookup String.eqb "initialValue_string" E = lookup String.eqb "initialValue_string" (a_attr_entries a TInit))
-    by (subst E; apply (a_attr_lookup S); [exact Hok | reflexivity | a_attr_other]).
+    by (subst E; apply (a_attr_lookup S); [exact Hok | reflexivity | reflexivity | reflexivity | a_attr_other S Hok]).
   assert (Lmu : lookup String.eqb "multiplicity" E = lookup String.eqb "multiplicity" (a_attr_entries a TMult))
-    by (subst E; apply (a_attr_lookup S); [exact Hok | reflexivity | a_attr_other]).
+    by (subst E; apply (a_attr_lookup S); [exact Hok | reflexivity | reflexivity | reflexivity | a_attr_other S Hok]).
   assert (Lset : lookup String.eqb "hasSetter" E = lookup String.eqb "hasSetter" (a_attr_entries a TSetter))
-    by (subst E; apply (a_attr_lookup S); [exact Hok | reflexivity | a_attr_other]).
+    by (subst E; apply (a_attr_lookup S); [exact Hok | reflexivity | reflexivity | reflexivity | a_attr_other S Hok]).
   assert (Lget : lookup String.eqb "hasGetter" E = lookup String.eqb "hasGetter" (a_attr_entries a TGetter))
-    by (subst E; apply (a_attr_lookup S); [exact Hok | reflexivity | a_attr_other]).
+    by (subst E; apply (a_attr_lookup S); [exact Hok | reflexivity | reflexivity | reflexivity | a_attr_other S Hok]).
   assert (Lro : lookup String.eqb "readOnly" E = lookup String.eqb "readOnly" (a_attr_entries a TReadOnly))
-    by (subst E; apply (a_attr_lookup S); [exact Hok | reflexivity | a_attr_other]).
+    by (subst E; apply (a_attr_lookup S); [exact Hok | reflexivity | reflexivity | reflexivity | a_attr_other S Hok]).
   clear HE. cbn [a_attr_entries] in *.
   unfold parse_attribute. rewrite a_head_name, a_head_child. cbn [bind name_text].
-  rewrite (a_opt_text _ _ _ Lmod), (a_opt_text _ _ _ Ldoc), (a_opt_text _ _ _ Lmu).
+  rewrite (a_opt_text _ _ _ Lmod), (a_opt_doc _ _ _ Ldoc), (a_opt_text _ _ _ Lmu).
   rewrite (a_has_flag _ _ _ Lset), (a_has_flag _ _ _ Lget), (a_has_flag _ _ _ Lro).
   assert (Pvis : (if has "visibility" (PDict E) then x <- idx "visibility" (PDict E);; Some (visibility_str x) else Some "private")
                  = Some (match sa_vis a with Some c => vis_of_code c | None => "private" end)).
   { unfold has, idx. rewrite mem_lookup, Lvis. destruct (sa_vis a) as [c|]; [|reflexivity].
-    cbn [lookup]. rewrite String.eqb_refl. cbn [bind]. cbn [code_ok] in *. a_split.
-    rewrite a_unq_plain by (apply negb_true_iff; assumption). reflexivity. }
+    cbn [lookup]. rewrite String.eqb_refl. reflexivity. }
   assert (Pty : (if has "type_0" (PDict E)
                  then t <- sidx "type_0" (PDict E);; n <- nested_type_names g t;; Some (clean_modifiers n) else Some "void")
-                = Some (match sa_type a with [] => "void" | ids => type_name S ids end)).
+                = Some (match sa_type a with [] => "void" | ids => clean_modifiers (type_name S ids) end)).
   { unfold has, sidx, idx. rewrite mem_lookup, Lty. unfold a_ref. destruct (sa_type a) as [|x r]; [reflexivity|].
     change ("type" ++ "_0") with "type_0". cbn [lookup]. rewrite String.eqb_refl. cbn [bind as_str].
     match goal with H : tpath_ok S (x :: r) = true |- _ => unfold tpath_ok in H end. a_split.
-    rewrite (a_nested S g (x :: r) Hg) by (assumption || discriminate). cbn [bind].
-    rewrite a_type_clean by assumption. reflexivity. }
+    rewrite (a_nested S g (x :: r) Hg) by (assumption || discriminate). reflexivity. }
   assert (Psc : (if has "scope" (PDict E) then x <- idx "scope" (PDict E);; Some (pv_is "65" x) else Some false) = Some (sa_static a)).
   { unfold has, idx. rewrite mem_lookup, Lsc. destruct (sa_static a); reflexivity. }
   assert (Pini : (if has "initialValue_string" (PDict E) then x <- sidx "initialValue_string" (PDict E);; Some (Some x) else Some None)
@@ -546,12 +559,13 @@ Qed.
 Lemma a_nodup_seen : forall l seen t, nodup_tags l seen = true -> existsb (tag_eqb t) seen = true -> has_tag t l = false.
 Proof.
   induction l as [|s r IH]; intros seen t H Hs; [reflexivity|].
-  destruct s as [k v|x].
+  destruct s as [k v|x|it].
   - cbn [nodup_tags] in H. unfold has_tag. cbn [existsb orb]. apply (IH seen t H Hs).
   - cbn [nodup_tags] in H. a_split. unfold has_tag. cbn [existsb]. apply orb_false_iff. split.
     + destruct (tag_eqb x t) eqn:E; [|reflexivity]. apply tag_eqb_eq in E. subst x.
       match goal with H : negb _ = true |- _ => rewrite Hs in H; discriminate H end.
     + apply (IH (x :: seen) t); [assumption|]. cbn [existsb]. rewrite Hs. apply orb_true_r.
+  - cbn [nodup_tags] in H. unfold has_tag. cbn [existsb orb]. apply (IH seen t H Hs).
 Qed.
 
 (* ---------------------------------------------------------------- packages *)
@@ -568,6 +582,23 @@ Proof.
     rewrite IH, <- app_assoc. reflexivity.
 Qed.
 
+(* a property none of whose keys holds "child" is skipped, however many entries it has *)
+Lemma a_pkg_skip : forall it acc, (forall k, In k (item_keys it) -> is_child_key k = false) ->
+  foldM a_pkg_step (entries [it]) acc = Some acc.
+Proof.
+  intros it acc H. apply a_foldM_skip. intros x Hx s. unfold a_pkg_step.
+  rewrite (H (fst x)); [reflexivity|]. rewrite <- entry_keys_one, <- entries_keys. apply in_map. exact Hx.
+Qed.
+
+(* owned elements are dictionaries: skipped *)
+Lemma a_pkg_nodes : forall ns n acc, foldM a_pkg_step (numbered (map node_pv ns) n) acc = Some acc.
+Proof.
+  induction ns as [|x r IH]; intros n acc; [reflexivity|].
+  cbn [map numbered foldM]. unfold a_pkg_step at 1. cbn [fst snd].
+  destruct x as [id nm ty its tl]. rewrite node_explicit.
+  destruct (is_child_key ("child_" ++ dec n)); cbn [bind]; apply IH.
+Qed.
+
 Lemma a_paths_strip : forall ps,
   forallb (fun path => negb (match path with [] => true | _ => false end) && forallb ident path) ps = true ->
   map py_strip (map path_text ps) = map path_text ps.
@@ -577,20 +608,31 @@ Proof.
   apply a_path_strip; [|assumption]. destruct x; [discriminate | discriminate].
 Qed.
 
+Lemma a_inert_not_child : forall it k, inert_ok KPackage it = true -> In k (item_keys it) -> is_child_key k = false.
+Proof.
+  intros it k H Hk. unfold inert_ok in H. a_split.
+  match goal with H : forallb _ (item_keys it) = true |- _ => rewrite forallb_forall in H; specialize (H _ Hk) end.
+  a_split. match goal with H : forallb _ (kind_parts KPackage) = true |- _ => cbn [kind_parts forallb] in H end. a_split.
+  unfold is_child_key. apply negb_true_iff. assumption.
+Qed.
+
 Lemma a_pkg_fold : forall ws p l seen acc,
   nodup_tags l seen = true ->
-  forallb (fun s => match s with SNoise k v => noise_key k && noise_val v | STag _ => true end) l = true ->
+  forallb (fun s => match s with SNoise k v => noise_key k && noise_val v | _ => true end) l = true ->
+  forallb (fun s => match s with SInert it => inert_ok KPackage it | _ => true end) l = true ->
   forallb (fun path => negb (match path with [] => true | _ => false end) && forallb ident path) (sk_paths p) = true ->
   foldM a_pkg_step (entries (items_of ws (package_item p) l)) acc
   = Some (acc ++ (if has_tag TChild l then map path_text (sk_paths p) else []))%list.
 Proof.
-  intros ws p l. induction l as [|s r IH]; intros seen acc Hn Hk Hp.
+  intros ws p l. induction l as [|s r IH]; intros seen acc Hn Hk Hi Hp.
   - cbn [items_of flat_map entries foldM has_tag existsb]. rewrite app_nil_r. reflexivity.
-  - cbn [forallb] in Hk. a_split. rewrite items_of_cons, entries_app, a_foldM_app.
-    destruct s as [k v|t].
-    + cbn [nodup_tags] in Hn. a_split. change (entries [IField ws k v]) with [(k, PStr (unq v))].
-      cbn [foldM]. unfold a_pkg_step at 1. cbn [fst snd]. rewrite a_noise_not_child by assumption. cbn [bind].
-      unfold has_tag. cbn [existsb orb]. apply (IH seen acc); assumption.
+  - cbn [forallb] in Hk, Hi. a_split. rewrite items_of_cons, entries_app, a_foldM_app.
+    destruct s as [k v|t|it].
+    + cbn [nodup_tags] in Hn. a_split. rewrite a_pkg_skip.
+      * unfold has_tag. cbn [existsb orb]. apply (IH seen acc); assumption.
+      * intros k0 Hk0. cbn [item_keys] in Hk0.
+        destruct (String.eqb (py_strip (remove_char "," (unq v))) ""); [destruct Hk0|].
+        destruct Hk0 as [Hk0|[]]. subst k0. apply a_noise_not_child. assumption.
     + cbn [nodup_tags] in Hn. a_split. rewrite tag_item_entries.
       destruct (tag_eqb t TChild) eqn:Et.
       * apply tag_eqb_eq in Et. subst t.
@@ -603,6 +645,9 @@ Proof.
       * assert (Ee : tag_entries (package_item p) t = []) by (unfold tag_entries; destruct t; try reflexivity; discriminate Et).
         rewrite Ee. cbn [foldM]. unfold has_tag. cbn [existsb]. rewrite Et. cbn [orb].
         apply (IH (t :: seen) acc); assumption.
+    + cbn [nodup_tags] in Hn. rewrite a_pkg_skip.
+      * unfold has_tag. cbn [existsb orb]. apply (IH seen acc); assumption.
+      * intros k0 Hk0. apply (a_inert_not_child it); assumption.
 Qed.
 
 Lemma a_forallb_imp : forall (A : Type) (P Q : A -> bool) l,
@@ -612,40 +657,31 @@ Proof.
   cbn [forallb] in *. apply andb_true_iff in Hl. destruct Hl as [H1 H2]. rewrite (H _ H1), (IH H2). reflexivity.
 Qed.
 
-Lemma a_pkg_flat : forall p t it, package_item p t = Some it -> a_flat it = true.
-Proof.
-  intros p t it H. destruct t; try discriminate H. cbn [package_item] in H.
-  destruct (sk_paths p); [discriminate|]. injection H as H. subst it. reflexivity.
-Qed.
-
 Lemma build_package : goal_package.
 Proof.
   intros S P v p Hok HP Hid Hname. unfold package_ok in Hok. a_split.
   unfold parse_package. rewrite HP. cbn [bind]. unfold tree_of_package. rewrite top_explicit.
-  rewrite (a_body _ _ _ ltac:(eassumption) (a_pkg_flat p)). rewrite a_over_top.
+  rewrite (a_body _ _ _ ltac:(eassumption)). rewrite a_over_top.
   destruct (a_layout_parts _ _ ltac:(eassumption)) as [L1 [_ [_ [L4 L5]]]].
   assert (Hp : forallb (fun path => negb (match path with [] => true | _ => false end) && forallb ident path) (sk_paths p) = true).
   { match goal with H : forallb _ (sk_paths p) = true |- _ => revert H end. apply a_forallb_imp.
     intros x Hx. a_split. apply andb_true_iff. split; assumption. }
+  assert (Li : forallb (fun s => match s with SInert it => inert_ok KPackage it | _ => true end) (sk_layout p) = true)
+    by (match goal with H : inerts_ok KPackage (sk_layout p) = true |- _ => exact H end).
   change (fun (acc : list string) (kv : string * UmlBlob.pv) =>
             if is_child_key (fst kv) then match snd kv with PStr s => Some (acc ++ [py_strip s])%list | PDict _ => Some acc end
             else Some acc) with a_pkg_step.
-  rewrite (a_pkg_fold (tabs 1) p (sk_layout p) [] [] L1 L4 Hp). cbn [app].
+  rewrite a_foldM_app, (a_pkg_fold (tabsn (sk_nl p) 1) p (sk_layout p) [] [] L1 L4 Li Hp), a_pkg_nodes. cbn [app].
   unfold rpackage_of. rewrite Hid, Hname. f_equal. f_equal.
   destruct (sk_paths p) as [|x ps] eqn:Eps.
   - destruct (has_tag TChild (sk_layout p)); reflexivity.
-  - rewrite (L5 TChild (IRefs (tabs 1) "Child" (list_open 2) (list_sep 2) (list_close 1) (map path_text (x :: ps)))); [reflexivity|].
+  - rewrite (L5 TChild (IRefs (tabsn (sk_nl p) 1) "Child" (list_open (sk_nl p) 2) (list_sep (sk_nl p) 2) (list_close (sk_nl p) 1) (map path_text (x :: ps)))); [reflexivity|].
     cbn [package_item]. rewrite Eps. reflexivity.
 Qed.
 
 Print Assumptions build_package.
 
 (* ---------------------------------------------------------------- inheritances *)
-
-Lemma a_inh_flat : forall i t it, inh_item i t = Some it -> a_flat it = true.
-Proof.
-  intros i t it H. destruct t; try discriminate H; cbn [inh_item] in H; eapply a_ref_flat; eassumption.
-Qed.
 
 Lemma a_inh_tag : forall i t, tag_entries (inh_item i) t =
   match t with TFrom => a_ref "fromModel" (si_from i) | TTo => a_ref "toModel" (si_to i) | _ => [] end.
@@ -670,14 +706,17 @@ Lemma build_inh : goal_inh.
 Proof.
   intros S g P v i real Hg Hok HP Hid. unfold inh_ok in Hok. a_split.
   unfold parse_inheritance. rewrite HP. cbn [bind]. unfold tree_of_inh. rewrite top_explicit.
-  rewrite (a_body _ _ _ ltac:(eassumption) (a_inh_flat i)). cbn [items bind].
+  rewrite (a_body _ _ _ ltac:(eassumption)). cbn [items bind].
   rewrite a_inh_top by (intros r kv Hc; cbn beta; rewrite Hc; reflexivity).
   cbn [fst snd]. change (is_child_key "child_0") with true. cbn iota.
-  remember (entries (items_of (tabs 1) (inh_item i) (si_layout i))) as E eqn:HE.
+  remember (entries (items_of (tabsn (si_nl i) 1) (inh_item i) (si_layout i))
+            ++ numbered (map node_pv (children_of (items_of (tabsn (si_nl i) 1) (inh_item i) (si_layout i)))) 0)%list as E eqn:HE.
   assert (Lf : lookup String.eqb "fromModel_0" E = lookup String.eqb "fromModel_0" (a_ref "fromModel" (si_from i))).
-  { subst E. rewrite (a_lookup _ _ _ "fromModel_0" TFrom); [rewrite a_inh_tag; reflexivity | assumption | reflexivity | a_inh_other]. }
+  { subst E. rewrite (a_lookup_body KInh _ _ _ "fromModel_0" TFrom);
+      [rewrite a_inh_tag; reflexivity | assumption | assumption | reflexivity | reflexivity | reflexivity | a_inh_other]. }
   assert (Lt : lookup String.eqb "toModel_0" E = lookup String.eqb "toModel_0" (a_ref "toModel" (si_to i))).
-  { subst E. rewrite (a_lookup _ _ _ "toModel_0" TTo); [rewrite a_inh_tag; reflexivity | assumption | reflexivity | a_inh_other]. }
+  { subst E. rewrite (a_lookup_body KInh _ _ _ "toModel_0" TTo);
+      [rewrite a_inh_tag; reflexivity | assumption | assumption | reflexivity | reflexivity | reflexivity | a_inh_other]. }
   clear HE. unfold sidx, idx. rewrite Lf, Lt. unfold a_ref.
   destruct (si_from i) as [|x r] eqn:Ef; [discriminate|]. destruct (si_to i) as [|y r'] eqn:Et; [discriminate|].
   change ("fromModel" ++ "_0") with "fromModel_0". change ("toModel" ++ "_0") with "toModel_0".
